@@ -217,6 +217,12 @@ def make_special(name):
             PatchwiseTransform(2, KDRandomHorizontalFlip()),
             KDRandomApply(KDColorJitter(saturation=0.5), p=0.5), KDSemsegRandomHorizontalFlip()], seed=seed_value()), "x semseg",
             return_ctx=True), list(range(N))
+    if name in ("multiview_plain_first", "multiview_plain_middle"):
+        # plain callables (torchvision transforms, lambdas) among the view configs
+        from kappadata.wrappers.sample_wrappers.kd_multi_view_wrapper import KDMultiViewWrapper
+        P = probe_cls()
+        cfgs = [cat.Plain(), (2, P()), P()] if name.endswith("first") else [P(), (2, cat.Plain()), P()]
+        return ModeWrapper(KDMultiViewWrapper(Root("T3"), cfgs, seed=seed_value()), "x class", return_ctx=True), list(range(N))
     if name.startswith("shared_transform"):
         # ONE transform object used by two seeded wrappers (train/val built from one object, or two stacked wrappers)
         from kappadata.wrappers.sample_wrappers.x_transform_wrapper import XTransformWrapper
@@ -267,7 +273,7 @@ def probe_like_color():
     return KDRandomColorJitter(p=0.8, brightness=0.4, contrast=0.4)
 
 
-SPECIALS = ("shared_transform_pair", "shared_transform_pair_nested", "shared_transform_pair_multiview", "shared_transform_stacked",
+SPECIALS = ("multiview_plain_first", "multiview_plain_middle", "shared_transform_pair", "shared_transform_pair_nested", "shared_transform_pair_multiview", "shared_transform_stacked",
             "shared_transform_stacked_nested", "mix", "mix_p05", "other_items", "semseg", "semseg_nested", "semseg_scheduled", "byol_multiview", "mugs_multiview", "imagenet_minaug_multiview", "imagenet_minaug_xtransform")
 
 
@@ -402,7 +408,7 @@ def task(items):
                           maxlen=3 if _tensor_out(tspec) else 2, workers=not sched)
         else:
             explore_stack(lambda: make_special(it[1]), it[1] + sfx, dict(special=it[1], seed0=sfx == "|seed0", npseed=_SEED_NUMPY[0], stored=_STORED[0]), p,
-                          expect_distinct=it[1] in ("byol_multiview", "other_items") or it[1].startswith("shared_transform"),
+                          expect_distinct=it[1] in ("byol_multiview", "other_items") or it[1].startswith(("shared_transform", "multiview_plain")),
                           workers=it[1] != "semseg_scheduled", maxlen=3)
     p.sample(dict(item=[str(x) for x in items[0]], histories="all access sequences of length<=3 x perturbation; workers 1..3"))
     return p
